@@ -32,6 +32,9 @@ type Outcome struct {
 	// IgnoreCancel: the dial does not return when its context is cancelled before Delay has passed
 	// (a transport that reacts late); it still returns after Delay with ctx.Err().
 	IgnoreCancel bool
+	// Err: the error a "fail" outcome returns (default: a plain scripted-failure error). Transports that
+	// dial through the same swarm (the relay client) return errors that WRAP the swarm's own sentinels.
+	Err error
 }
 
 // DialRecord is one Dial invocation.
@@ -176,6 +179,9 @@ func (t *Transport) DialWithUpdates(ctx context.Context, raddr ma.Multiaddr, p p
 	switch out.Kind {
 	case "fail":
 		t.Log.end(rec, "fail", ctx)
+		if out.Err != nil {
+			return nil, out.Err
+		}
 		return nil, fmt.Errorf("scripttpt: scripted failure for %s", raddr)
 	case "wrongpeer":
 		c := t.NewConn(out.AsPeer, raddr, network.DirOutbound)
